@@ -702,6 +702,7 @@ def list_edit(draw, spec, mutators=True, noops=True):
             args = [draw(st.integers(0, len(cur))), draw(st.sampled_from(pool))]
         elif m in ("extend", "iadd"):
             args = [draw(st.lists(st.sampled_from(pool), min_size=0 if noops else 1, max_size=2))]
+            arg_as = draw(st.sampled_from(["list", "list", "list", "tuple", "iterator", "generator"]))
         elif m == "imul":
             args = [draw(st.sampled_from([1, 2, 3, 0] if noops and min_len == 0 else [1, 2, 3] if noops else [2, 3]))]
             if len(cur) > 3:
@@ -723,6 +724,8 @@ def list_edit(draw, spec, mutators=True, noops=True):
         else:
             args = []
         ed = dict(op="listop", obj=n, attr=a, method=m, args=args)
+        if m in ("extend", "iadd") and arg_as != "list":
+            ed["arg_as"] = arg_as
     if not _keeps_profile(spec, E.apply_spec(spec, ed)):
         return draw(quantity_edit(spec))
     return ed
